@@ -689,6 +689,28 @@ func C07(c *vf.Ctx) {
 						}
 					}
 					if w.HasStream(r) {
+						if rng.Intn(2) == 0 {
+							// the SendError first queues behind a send that is parked in the transport (contended write lock)
+							if st := w.FreeThread(); st != "" && w.Step(sys.Stim{K: "op", T: st, Op: "Send1", R: r}) {
+								if et := w.FreeThread(); et != "" {
+									w.Step(sys.Stim{K: "op", T: et, Op: "SendErr", R: r})
+								}
+								for i := 0; i < 3 && w.CP.WritePending(); i++ {
+									w.Step(sys.Stim{K: "relw", E: "cli", How: "ok"})
+									if w.Last().App[st] != "tw" {
+										break
+									}
+								}
+								if nt := w.FreeThread(); nt != "" {
+									w.Step(sys.Stim{K: "start", T: nt, Op: []string{"Invoke", "NewStream"}[rng.Intn(2)], Md: "none"})
+									w.Flow(6, nil)
+								}
+								for _, u := range w.Cfg.Threads {
+									w.Step(sys.Stim{K: "relm", T: u})
+								}
+								w.Flow(20, nil)
+							}
+						}
 						et, nt := w.FreeThread(), ""
 						if et != "" && w.Step(sys.Stim{K: "op", T: et, Op: "SendErr", R: r}) {
 							if nt = w.FreeThread(); nt != "" {
@@ -742,6 +764,8 @@ func C01(c *vf.Ctx) {
 		tail: func(w *sys.World, rng *rand.Rand, ts *tailState) {
 			if w.Cfg.GateU && rng.Intn(2) == 0 {
 				lentBufferScenario(w, rng)
+			} else if !w.Cfg.GateU && rng.Intn(3) == 0 {
+				queuedSendersScenario(w, rng)
 			}
 			// graceful end: everything flows, both sides half-close, receivers drain
 			for i := 0; i < 6; i++ {
@@ -761,6 +785,34 @@ func C01(c *vf.Ctx) {
 	}
 	runSysFamily(c, fam, nT, nR)
 	c.Cov["rule"] = "bidirectional streaming and unary workloads with up to three client goroutines (one- and two-frame messages, receives, half-close, close), handler sends/receives, every write parked and released individually, deliveries delayed arbitrarily, the receiver's Unmarshal gated (lent-buffer window); five configurations of writer buffer / manual flush / soft cancel. Monitors on the real observations: received multiset = first k submitted (wire order) at every quiescence, no duplicates, all frames on the transport when MsgSend returns nil. Every run validated against SystemTrace.tla."
+}
+
+// queuedSendersScenario (directed, Appendix D.11): several goroutines call MsgSend on one stream while a write is
+// parked in the transport, so that they queue up behind each other; then everything flows and the peer receives.
+func queuedSendersScenario(w *sys.World, rng *rand.Rand) {
+	endAll(w, func(w *sys.World) string { return "retnil" })
+	t := w.FreeThread()
+	if t == "" || w.NRPC() >= sys.MaxRPC || !w.Step(sys.Stim{K: "start", T: t, Op: "NewStream", Md: "none"}) {
+		return
+	}
+	r := w.NRPC()
+	for i := 0; i < 4 && !w.HasStream(r); i++ {
+		w.Flow(10, nil)
+	}
+	if !w.HasStream(r) {
+		return
+	}
+	// the first send parks in the transport when the writer buffer is small; the others queue behind it
+	for i := 0; i < len(w.Cfg.Threads); i++ {
+		if st := w.FreeThread(); st != "" {
+			w.Step(sys.Stim{K: "op", T: st, Op: []string{"Send1", "Send2"}[rng.Intn(2)], R: r})
+		}
+	}
+	w.Flow(30, nil)
+	for i := 0; i < len(w.Cfg.Threads)+1 && strings.HasPrefix(w.Last().App["sv"], "h:"); i++ {
+		w.Step(sys.Stim{K: "hstep", A: "recv"})
+		w.Flow(10, nil)
+	}
 }
 
 // lentBufferScenario (directed, Appendix D.3): a receiver is inside the user's Unmarshal, holding the buffer the
